@@ -275,7 +275,7 @@ class Signal( NamedObject, Connectable ):
 
     # Turn index into a slice
     if isinstance( idx, int ):
-      start, stop = idx, idx + 1
+      start, stop = int(idx), int(idx) + 1
     elif isinstance( idx, slice ):
       assert idx.step is None, f"The slice {idx} is invalid: a signal slice cannot have a step"
       # s.x[:8] / s.x[8:]: an omitted bound is the end of the (sliced) signal
@@ -283,6 +283,10 @@ class Signal( NamedObject, Connectable ):
       else:                    width = s._dsl.slice.stop - s._dsl.slice.start
       start = 0     if idx.start is None else idx.start
       stop  = width if idx.stop  is None else idx.stop
+      # a bool or an IntEnum member is an int, but its str() is not a number:
+      # the bounds end up in the name of the slice
+      if isinstance( start, int ): start = int(start)
+      if isinstance( stop,  int ): stop  = int(stop)
     else: assert False, f"The slice {idx} is invalid"
 
     if s._dsl.slice is None:
